@@ -109,11 +109,16 @@ def jobs_for(pid, tier):
     elif pid == "C02":
         c1 = dict(jobs_for("C01", tier))
         c4 = dict(jobs_for("C04", tier))
-        J += [("xfer", c1["xfer"]), ("compound", c1["compound"]), ("sequences", c1["sequences"]), ("names", c4["names"]), ("atoms", c4["atoms"])]
+        c11 = dict(jobs_for("C11", tier))
+        J += [("xfer", c1["xfer"]), ("compound", c1["compound"]), ("sequences", c1["sequences"]), ("names", c4["names"]), ("atoms", c4["atoms"]),
+              ("splits", c11["splits"])]          # qualifier merging is the documented normal form: what is read back is the union
     elif pid == "C09":
         c1 = dict(jobs_for("C01", tier))
         c4 = dict(jobs_for("C04", tier))
-        J += [("xfer", c1["xfer"]), ("compound", c1["compound"]), ("atoms", c4["atoms"])]
+        J += [("xfer", c1["xfer"]), ("compound", c1["compound"]), ("atoms", c4["atoms"]),
+              # atoms whose type is itself a compound or qualified type
+              ("typed-atoms", base_consts(["get_qualified", "get_pointer", "get_literal", "get_symbol", "get_this"], 3, types=(12,),
+                                          ids=(49,), words=("foo",), quals=(1,)))]
     elif pid == "C11":
         J.append(("splits", base_consts(["get_qualified"], 3 if q else 4, types=(12,), quals=(0, 1, 2, 3, 4, 5, 6, 7),
                                         prelude="PreludeClass")))
@@ -171,6 +176,18 @@ def type_changed(ev, prefix):
             continue
         if e.get("r") == r and "o" in e and e.get("out", "ok") == "ok":
             return (e["o"] or {}).get("ty") != ty
+    return False
+
+
+def atom_type_wrong(ev):
+    """Attribution only: an atom that reports another type than the one it was requested with."""
+    op, a, ty = ev.get("op"), ev.get("a") or [], (ev.get("o") or {}).get("ty")
+    if ev.get("out") != "ok":
+        return False
+    if op in ("get_literal", "make_literal", "get_literal_s", "make_literal_s", "get_this"):
+        return len(a) >= 1 and ty != a[0]
+    if op == "get_symbol":
+        return len(a) >= 2 and ty != a[1]
     return False
 
 
@@ -280,7 +297,7 @@ def run(pid, tier, seed):
                 or (pid == "C01" and ev.get("op") in TYPE_OPS) \
                 or (pid == "C04" and ev.get("op") in NAME_OPS) \
                 or (pid == "C02" and ev.get("op") in TYPE_OPS + NAME_OPS) \
-                or (pid == "C09" and type_changed(ev, prefix)) \
+                or (pid == "C09" and (type_changed(ev, prefix) or atom_type_wrong(ev))) \
                 or ev.get("op") in ("mk_class", "mk_phantom", "mk_expr_list", "mk_template", "get_decltype", "get_auto")
             if not ok_mine:
                 foreign += 1
